@@ -12,7 +12,7 @@ func baseWeights() map[string]int {
 		"burn_regen": 2, "unimplemented": 1, "bank_send": 8,
 		"basket_create": 4, "put": 14, "take": 12, "basket_fee": 2, "update_curator": 2, "update_date_criteria": 3,
 		"sell": 14, "update_sell": 10, "cancel_sell": 5, "buy": 16, "basket_token_market": 4, "allowed_denom": 3, "fee_params": 3, "fee_pool_send": 3,
-		"anchor": 3, "attest": 3, "define_resolver": 2, "register_resolver": 3,
+		"anchor": 3, "attest": 3, "define_resolver": 2, "register_resolver": 3, "resolver_combo": 1,
 	}
 }
 
@@ -28,13 +28,13 @@ func tilt(name string, mult map[string]int) Profile {
 func ProfileFor(prop string) Profile {
 	switch prop {
 	case "C05", "C11":
-		p := tilt("basket-heavy", map[string]int{"put": 4, "take": 4, "basket_create": 2, "update_date_criteria": 4, "bank_send": 3, "create_batch": 2, "sell": 0, "update_sell": 0, "cancel_sell": 0, "buy": 0, "anchor": 0, "attest": 0, "define_resolver": 0, "register_resolver": 0})
+		p := tilt("basket-heavy", map[string]int{"put": 4, "take": 4, "basket_create": 2, "update_date_criteria": 4, "bank_send": 3, "create_batch": 2, "sell": 0, "update_sell": 0, "cancel_sell": 0, "buy": 0, "anchor": 0, "attest": 0, "define_resolver": 0, "register_resolver": 0, "resolver_combo": 0})
 		p.Weights["sell"], p.Weights["buy"], p.Weights["update_sell"], p.Weights["cancel_sell"] = 4, 4, 2, 1
 		p.Weights["basket_token_market"], p.Weights["fee_params"] = 14, 6
 		p.Boundary = 0.5
 		return p
 	case "C06", "C07", "C12":
-		p := tilt("market-heavy", map[string]int{"sell": 4, "update_sell": 4, "cancel_sell": 3, "buy": 5, "allowed_denom": 3, "fee_params": 3, "fee_pool_send": 2, "anchor": 0, "attest": 0, "define_resolver": 0, "register_resolver": 0})
+		p := tilt("market-heavy", map[string]int{"sell": 4, "update_sell": 4, "cancel_sell": 3, "buy": 5, "allowed_denom": 3, "fee_params": 3, "fee_pool_send": 2, "anchor": 0, "attest": 0, "define_resolver": 0, "register_resolver": 0, "resolver_combo": 0})
 		p.BlockEvery = 4
 		return p
 	case "C04":
@@ -47,18 +47,18 @@ func ProfileFor(prop string) Profile {
 	case "C08":
 		p := tilt("role-churn", map[string]int{"update_class_admin": 6, "update_class_issuers": 6, "update_class_metadata": 4, "update_project_admin": 6, "update_project_metadata": 4,
 			"update_batch_metadata": 4, "seal": 3, "mint": 3, "bridge_receive_bound": 3, "update_curator": 8, "allowlist": 4, "class_creator": 4, "class_fee": 3, "bridge_chain": 3, "basket_fee": 4, "update_date_criteria": 3,
-			"allowed_denom": 3, "fee_params": 3, "fee_pool_send": 3, "add_credit_type": 3, "update_sell": 2, "cancel_sell": 3, "register_resolver": 5, "define_resolver": 3, "create_class": 2, "create_project": 2})
+			"allowed_denom": 3, "fee_params": 3, "fee_pool_send": 3, "add_credit_type": 3, "update_sell": 2, "cancel_sell": 3, "register_resolver": 5, "define_resolver": 3, "resolver_combo": 6, "create_class": 2, "create_project": 2})
 		p.Hostile = 0.45
 		return p
 	case "C13":
-		p := tilt("bridge-heavy", map[string]int{"bridge": 8, "bridge_receive": 8, "bridge_receive_bound": 4, "mint_replay": 5, "mint": 4, "create_batch": 3, "bridge_chain": 5, "anchor": 0, "attest": 0, "define_resolver": 0, "register_resolver": 0})
+		p := tilt("bridge-heavy", map[string]int{"bridge": 8, "bridge_receive": 8, "bridge_receive_bound": 4, "mint_replay": 5, "mint": 4, "create_batch": 3, "bridge_chain": 5, "anchor": 0, "attest": 0, "define_resolver": 0, "register_resolver": 0, "resolver_combo": 0})
 		return p
 	case "C14", "C17":
 		p := tilt("creation-heavy", map[string]int{"create_class": 6, "create_project": 8, "create_batch": 5, "bridge_receive": 3, "add_credit_type": 5, "basket_create": 3})
 		p.MaxClasses, p.MaxProjects, p.MaxBatches, p.MaxBaskets = 130, 260, 320, 30
 		return p
 	case "C16":
-		p := Profile{Name: "data-only", Weights: map[string]int{"anchor": 10, "attest": 10, "define_resolver": 3, "register_resolver": 8}, Hostile: 0.15,
+		p := Profile{Name: "data-only", Weights: map[string]int{"anchor": 10, "attest": 10, "define_resolver": 3, "register_resolver": 8, "resolver_combo": 1}, Hostile: 0.15,
 			MaxClasses: 1, MaxProjects: 1, MaxBatches: 1, MaxBaskets: 1, MaxOrders: 1, BlockEvery: 4}
 		return p
 	}
